@@ -360,13 +360,13 @@ func (e *EdgeQuery) IsDistanceGreater(target distanceTarget, limit s1.ChordAngle
 // distance is definitely greater than "snap radius", then the geometries
 // are guaranteed to not intersect after snapping.
 func (e *EdgeQuery) IsConservativeDistanceLessOrEqual(target distanceTarget, limit s1.ChordAngle) bool {
-	return e.IsDistanceLess(target, limit.Expanded(minUpdateDistanceMaxError(limit)))
+	return e.IsDistanceLess(target, limit.Expanded(minUpdateDistanceMaxError(limit)).Successor())
 }
 
 // IsConservativeDistanceGreaterOrEqual reports if the distance to the target is greater
 // than or equal to the given limit with some small tolerance.
 func (e *EdgeQuery) IsConservativeDistanceGreaterOrEqual(target distanceTarget, limit s1.ChordAngle) bool {
-	return e.IsDistanceGreater(target, limit.Expanded(-minUpdateDistanceMaxError(limit)))
+	return e.IsDistanceGreater(target, limit.Expanded(-minUpdateDistanceMaxError(limit)).Predecessor())
 }
 
 // findEdges returns the closest edges to the given target that satisfy the given options.
